@@ -58,6 +58,13 @@ func (c13) Gen(tier string, seed int64, emit func([]Ev)) {
 			emit([]Ev{{"op": "emitted", "kind": "scte35", "seed": int(r.Int31()), "astuff": []int{0, 0, 1, 2, 3, 4, 7}[r.Intn(7)]}})
 		}
 	}
+	// long strings: up to the longest section (4096 bytes), beyond any 8- or 12-bit counter (TLC's CRC of a
+	// 64 KiB string takes too long to be useful)
+	for _, ln := range []int{255, 256, 257, 4093, 4095, 4096, 4097} {
+		d := make([]byte, ln)
+		r.Read(d)
+		one(d)
+	}
 	for i := 0; i < nrand; i++ {
 		ln := r.Intn(1025)
 		if i%5 == 0 {
